@@ -48,6 +48,8 @@ func c07Scenarios(thorough bool) []c07Scenario {
 			Block: ev(enga.Event{Kind: "tx:replay", Var: "rewrite-context"}, enga.Event{Kind: "tx:replay", Var: "other-action"}, enga.Event{Kind: "tx:replay", Var: "rewrite-context"})},
 		{Name: "evidence-old-in-blocks-young-in-time", Setup: []enga.ABlock{{}, {}, {}, {}, {}}, Block: enga.ABlock{Evidence: []int{1}, EvAgeBlocks: 5, EvAgeSecs: 5}},
 		{Name: "evidence-old-in-blocks-and-time", Setup: []enga.ABlock{{}, {}, {}, {}, {Dt: 30}}, Block: enga.ABlock{Evidence: []int{1}, EvAgeBlocks: 5, EvAgeSecs: 34}},
+		{Name: "finalize-retried-after-a-stale-header", Setup: []enga.ABlock{ev(enga.Event{Kind: "req:withdraw", N: 2}), ev(enga.Event{Kind: "tx:process", N: 2}), ev(enga.Event{Kind: "tx:hashes", N: 1}),
+			ev(enga.Event{Kind: "tx:finalize", Var: "stale-header"})}, Block: ev(enga.Event{Kind: "tx:finalize"})},
 		{Name: "downtime+evidence", Block: enga.ABlock{Absent: []int{1}, Evidence: []int{1}}, Setup: []enga.ABlock{{Absent: []int{1}}}},
 	}
 	if thorough {
